@@ -42,7 +42,7 @@ thread_local! {
 
 pub fn cells_report() -> Vec<String> {
     let names = ["store", "storew", "rawstore", "rawstorew", "barb", "barbw", "barf", "barfw", "stash", "barb-", "barf-", "barfw-", "upgrade", "resurrect"];
-    let cols = ["W", "w", "G", "B", "-"];
+    let cols = ["W", "w", "G", "B", "-", "Wn", "wn", "Gn", "Bn", "-n"];
     let mut v: Vec<String> = CELLS.with(|c| c.borrow().iter().map(|((o, p, a, b), n)| format!("{}:ph{}:{}:{}={}", names[*o as usize], p, cols[*a as usize], cols[*b as usize], n)).collect());
     v.sort();
     v
@@ -191,7 +191,8 @@ impl Gen {
         let free_h: Vec<u8> = (0..NHANDLES as u8).filter(|h| v.handles[*h as usize].is_none()).collect();
         for p in 0..NREGS as u8 {
             let Some((_, pk)) = v.regs[p as usize] else { continue };
-            let pc = col(v.reg_col[p as usize]);
+            // parents of a non-tracing type get their own cells (colour + 5): barriers must leave them alone
+            let pc = col(v.reg_col[p as usize]) + if matches!(v.reg_col[p as usize], Some((_, false))) { 5 } else { 0 };
             cands.push(((9, ph, pc, 4), Op::M(MOp::BarB(p, None))));
             for c in 0..NREGS as u8 {
                 let Some((_, ck)) = v.regs[c as usize] else { continue };
@@ -244,7 +245,7 @@ impl Gen {
             // (weakly marked child, black or gray parent)
             let score = |k: &(u8, u8, u8, u8)| -> i64 {
                 let n = cl.get(k).copied().unwrap_or(0) as i64;
-                let rare = (if k.3 == 1 { 4 } else { 0 }) + (if k.2 == 3 { 2 } else { 0 }) + (if k.2 == 2 || k.3 == 2 { 1 } else { 0 }) + (if k.2 == 1 { 3 } else { 0 });
+                let rare = (if k.3 == 1 { 4 } else { 0 }) + (if k.2 == 3 { 2 } else { 0 }) + (if k.2 == 2 || k.3 == 2 { 1 } else { 0 }) + (if k.2 == 1 { 3 } else { 0 }) + (if k.2 == 8 { 3 } else { 0 });
                 n * 8 - rare
             };
             let min = cands.iter().map(|(k, _)| score(k)).min().unwrap();
@@ -398,6 +399,39 @@ impl OpSource for Gen {
                 return self.flat.pop_front();
             }
         }
+        // scenario: slot reuse. A slot freed by dropping its last handle is taken by a new stash; the new
+        // handle is cloned, one of the two is dropped, the arena is collected twice: the survivor must still
+        // resolve to the second object (and a third stash must not disturb it)
+        if v.in_cb.is_none() && self.prof.multi_arena && self.emitted < self.prof.len && self.rng.chance(1, 40) {
+            let free_arena = (1..NARENAS as u8).find(|x| !v.arenas[*x as usize]);
+            let free_h: Vec<u8> = (0..NHANDLES as u8).filter(|h| v.handles[*h as usize].is_none()).collect();
+            if let (Some(b), true) = (free_arena, free_h.len() >= 3) {
+                let (h1, h2, h3) = (free_h[0], free_h[1], free_h[2]);
+                let k = self.rng.pick(&[Kind::Node, Kind::Leaf, Kind::Struct]);
+                let mut seq = vec![
+                    Op::Begin(b, CbKind::New), Op::M(MOp::Alloc(0, Kind::Set, 0, 0)), Op::M(MOp::Alloc(1, k, 1, 0)),
+                    Op::M(MOp::Stash(h1, 0, 1)), Op::End,
+                    Op::DropH(h1),
+                    Op::Begin(b, CbKind::Mutate), Op::M(MOp::LoadRoot(0, 0)), Op::M(MOp::Alloc(1, k, 1, 0)),
+                    Op::M(MOp::Stash(h2, 0, 1)), Op::End,
+                    Op::CloneH(h3, h2),
+                ];
+                if self.rng.chance(1, 2) {
+                    seq.extend([Op::DropH(h2), Op::Collect(b, How::FinishCycle, None), Op::Collect(b, How::FinishCycle, None),
+                        Op::Begin(b, CbKind::Mutate), Op::M(MOp::LoadRoot(0, 0)), Op::M(MOp::Fetch(1, 0, h3)), Op::End, Op::DropH(h3)]);
+                } else {
+                    seq.extend([Op::DropH(h3),
+                        Op::Begin(b, CbKind::Mutate), Op::M(MOp::LoadRoot(0, 0)), Op::M(MOp::Alloc(1, k, 1, 0)), Op::M(MOp::Stash(h1, 0, 1)), Op::End,
+                        Op::Collect(b, How::FinishCycle, None), Op::Collect(b, How::FinishCycle, None),
+                        Op::Begin(b, CbKind::Mutate), Op::M(MOp::LoadRoot(0, 0)), Op::M(MOp::Fetch(1, 0, h2)), Op::M(MOp::Fetch(2, 0, h1)), Op::End,
+                        Op::DropH(h2), Op::Collect(b, How::FinishCycle, None), Op::Collect(b, How::FinishCycle, None),
+                        Op::Begin(b, CbKind::Mutate), Op::M(MOp::LoadRoot(0, 0)), Op::M(MOp::Fetch(2, 0, h1)), Op::End]);
+                }
+                self.paced[b as usize] = false;
+                self.flat.extend(seq.iter().copied());
+                return self.flat.pop_front();
+            }
+        }
         match v.in_cb {
             Some((a, kind, entered)) => {
                 if self.cb_kind.is_none() {
@@ -448,6 +482,26 @@ impl OpSource for Gen {
                     self.tpl.push_back(Op::M(MOp::Clear(rx)));
                     self.cb_left += 4;
                     return Some(Op::M(MOp::LoadRoot(rp, r.below(NROOT as u64) as u8)));
+                }
+                // template: a fully marked object of a NON-tracing type used as barrier parent of a fresh
+                // (white) object, strongly and weakly: barriers must not re-queue it (it was never counted
+                // as traced; F1 and its weak twin)
+                if v.cb_phase == 1 && !matches!(kind, CbKind::Finalize(_)) && self.rng.chance(1, 10) {
+                    let r = &mut self.rng;
+                    let (rl, rx, w) = (r.below(2) as u8, 2 + r.below(2) as u8, r.below(NREGS as u64) as u8);
+                    self.tpl.push_back(Op::M(MOp::BarF(None, rl)));
+                    self.tpl.push_back(Op::M(MOp::Alloc(rx, r.pick(&[Kind::Node, Kind::Struct, Kind::Leaf]), 1, 1)));
+                    self.tpl.push_back(Op::M(MOp::Downgrade(w, rx)));
+                    if r.chance(1, 2) {
+                        self.tpl.push_back(Op::M(MOp::BarBW(rl, w)));
+                        self.tpl.push_back(Op::M(MOp::BarB(rl, Some(rx))));
+                    } else {
+                        self.tpl.push_back(Op::M(MOp::BarB(rl, Some(rx))));
+                        self.tpl.push_back(Op::M(MOp::BarBW(rl, w)));
+                    }
+                    self.tpl.push_back(Op::M(MOp::BarB(rl, None)));
+                    self.cb_left += 6;
+                    return Some(Op::M(MOp::Alloc(rl, Kind::Leaf, 1, 0)));
                 }
                 // occasionally poke metrics from inside the callback
                 if self.rng.chance(1, 60) { return Some(Op::Adjust(a, Rat(1, 2))); }
